@@ -1,5 +1,11 @@
 package rules
 
+import (
+	"fmt"
+
+	"jsverif/internal/scanfsm"
+)
+
 func init() {
 	register("C13", propC13, false, false)
 	register("C12", propC12, false, false)
@@ -14,6 +20,40 @@ func propC08(c *Ctx) {
 	}
 	c.ruleC08Scanner(m)
 	c.ruleUnquote()
+	c.ruleNormalisers()
+	if c.R.Tier == "thorough" {
+		c.thoroughScanner(m, "C08")
+	}
+}
+
+// thoroughScanner repeats the pushdown exploration with a deeper stack bound and with byte 0 as an ordinary byte, and
+// reports every finding of the kinds that belong to the property.
+func (c *Ctx) thoroughScanner(m *scanfsm.Machine, prop string) {
+	r := c.R
+	r.Rule("E1-THOROUGH", "the exploration is repeated with stack bound k=9 and, separately, with byte 0 treated as an ordinary byte (no NUL guard assumed); every finding of any kind is reported", 2)
+	for _, v := range []struct {
+		k    int
+		pess bool
+	}{{9, false}, {stackK, true}} {
+		a := m.Analyse(v.k, v.pess)
+		label := fmt.Sprintf("k=%d", v.k)
+		if v.pess {
+			label += ", byte 0 ordinary"
+		}
+		bad := 0
+		for _, f := range a.Findings {
+			if v.pess && (f.Kind == "bracket" || f.Kind == "underflow" || f.Kind == "extent" || f.Kind == "order") {
+				// with NUL as an ordinary byte the EOF branches of the step functions run in the middle of the data: what
+				// they break is exactly why Next() rejects NUL; the guard is checked separately (E1-EXTRACT nul-guard)
+				continue
+			}
+			bad++
+			r.Bad("E1-THOROUGH", label+": "+f.Kind+" "+f.Key, f.Text+"; trace "+f.Trace, c.P.Pos(m.Pos[f.State]))
+		}
+		if bad == 0 {
+			r.Ok("E1-THOROUGH", label, fmt.Sprintf("%d configurations, %d transitions, nothing found", a.Configs, a.Transitions), "")
+		}
+	}
 }
 
 func propC13(c *Ctx) {
@@ -27,6 +67,9 @@ func propC13(c *Ctx) {
 	c.ruleC13(m, t)
 	c.ruleFirstByteTables("C13-KEYWORD-PREFILTER")
 	a := c.ruleAnalysis(m, map[string]string{}, false)
+	if c.R.Tier == "thorough" {
+		c.thoroughScanner(m, "C13")
+	}
 	c.R.Stats["traces_validated_against_impl"] = 0
 	c.R.Stats["exhaustive"] = true
 	_ = a
@@ -44,4 +87,7 @@ func propC12(c *Ctx) {
 	c.ruleC08Scanner(m)
 	c.R.Only = nil
 	c.ruleFirstByteTables("C12-KEYWORD-PREFILTER") // a Description's Text lexeme must end where the next directive starts
+	if c.R.Tier == "thorough" {
+		c.thoroughScanner(m, "C12")
+	}
 }
